@@ -177,11 +177,20 @@ _gdir = _tf.mkdtemp(prefix="dds_h_api_graph_")
 for where, cls, entry in [(w_, c_, e_) for w_ in ("root", "nested") for c_ in (ValueError, KeyError, KeyboardInterrupt, SystemExit, FileNotFoundError, ImportError, PermissionError, MemoryError) for e_ in ({}, {"dds_export_graph": os.path.join(_gdir, "g.svg")}, {"dds_extra_debug": True})]:
     if entry and cls in (KeyError, SystemExit, PermissionError):
         continue
-    for _once in (1,):
+    for nondefault in ((False, True) if entry else (False,)):
         s = fresh(); pipe.SCALE = 7
         pipe.FAIL = (where, cls("boom"))
+        import dds._config as _cfg
+        if nondefault:
+            # the user runs with non-default options: a failed evaluation leaves every one of them as it was
+            _cfg.set_option("extra_debug", False); _cfg.set_option("accept_list", False); _cfg.set_option("hash.max_sequence_size", 77)
+        opts_before = dict(_cfg._options_values)
         res, exc, ev, calls = run(**entry)
+        opts_after = dict(_cfg._options_values)
+        for k_ in ("extra_debug", "accept_list", "accept_dict", "hash.max_sequence_size"):
+            _cfg.reset_option(k_)
         k = kinds(ev)
+        if opts_after != opts_before: bad("failure", "%s raises %s (dds.eval with %s, options %s beforehand): the failed evaluation changed the options of the process: %s" % (where, cls.__name__, ", ".join(sorted(entry)) or "no option", "non-default" if nondefault else "default", {k_: (opts_before[k_], opts_after.get(k_)) for k_ in opts_before if opts_before[k_] != opts_after.get(k_)}))
         tag = "%s raises %s%s" % (where, cls.__name__, (" (dds.eval with %s)" % ", ".join(sorted(entry))) if entry else "")
         if calls.count(where) != 1: bad("failure", "%s: the failing function ran %d times in one evaluation (calls %s)" % (tag, calls.count(where), calls))
         if exc is not pipe.FAIL[1]: bad("failure", "%s: propagated %r instead of the same exception object" % (tag, exc))
